@@ -265,6 +265,28 @@ TCrash ==
            /\ Chk("crash.ro", e.ro.unchanged /\ (e.ro.open.ok => (TableEq(prev.frames, e.ro.obs) \/ TableEq(frames, e.ro.obs)
                                                                      \/ TableEq(Recover(prev), e.ro.obs) \/ TableEq(Recover(Snap), e.ro.obs)))))
 
+\* C20: a corrupted copy of the committed, closed file (the history's final state).  Every frame read must return the
+\* original or fail (pay -3 / -4 = read error); a table that differs in any other way was served silently.
+FrameEqOrErr(f, o, shown) ==
+  /\ f.uri = o.uri /\ f.st = o.st /\ f.role = o.role /\ f.parent = o.parent /\ f.sup = o.sup /\ f.supby = o.supby
+  /\ f.ts = o.ts /\ f.ci = o.ci /\ f.cc = o.cc
+  /\ (o.pay = shown \/ o.pay \in {-3, -4})
+  /\ (o.emb = (IF f.st = "active" THEN f.emb ELSE 0) \/ o.emb = -3)
+TableEqOrErr(fs, o) ==
+  /\ Has(o, "count") /\ Len(fs) = o.count /\ Has(o, "frames") /\ Len(o.frames) = o.count
+  /\ \A i \in 1..o.count : FrameEqOrErr(fs[i], o.frames[i], ShownPay(fs, i))
+TCorrupt ==
+  /\ IsEvent("corrupt") /\ UNCHANGED <<vars, prev>>
+  /\ LET e == Ev  tab == Apply(frames, pend) IN
+     /\ Chk("corrupt.panic", ~Panicked(e.res) /\ ~Panicked(e.close) /\ ~Panicked(e.second.open) /\ ~Panicked(e.verify) /\ ~Panicked(e.timeline)
+                               /\ (Has(e, "doctor") => ~Panicked(e.doctor.first) /\ ~Panicked(e.doctor.open) /\ ~Panicked(e.doctor.verify))
+                               /\ (Has(e, "ro") => ~Panicked(e.ro.open) /\ ~Panicked(e.ro.verify)))
+     /\ (e.res.ok => Chk("corrupt.served", TableEqOrErr(tab, e.obs)))
+     /\ (Has(e, "ro") /\ e.ro.open.ok => Chk("corrupt.served.ro", TableEqOrErr(frames, e.ro.obs) \/ TableEqOrErr(tab, e.ro.obs)))
+     \* verify(deep) of the untouched corrupted copy: Passed must imply that no read returns different data
+     /\ (Has(e, "ro") /\ e.ro.verify.ok /\ e.ro.verify.val = "Passed" /\ e.ro.open.ok =>
+            Chk("corrupt.verify", TableEqOrErr(frames, e.ro.obs) \/ TableEqOrErr(tab, e.ro.obs)))
+
 TraceStep == \/ TReset \/ TCreate \/ TCommit \/ TOpen \/ TOpenRO \/ TClose \/ TAbandon
              \/ TPut \/ TUpdate \/ TDelete \/ TVacuum \/ TTicket \/ TBeginBatch \/ TEndBatch
              \/ TTimeline \/ TByUri \/ TVecSet \/ TVerify \/ TDoctor
@@ -373,7 +395,7 @@ QHistNext == IF Ev.ev = "reset" THEN EmptyMap
              ELSE qhist
 
 TraceNext == ((TraceStep \/ TSearch \/ TVSearch \/ TOtherSearch) /\ prev' = Snap /\ qattr' = QAttrNext /\ qhist' = QHistNext)
-             \/ (TCrash /\ UNCHANGED <<qattr, qhist>>)
+             \/ ((TCrash \/ TCorrupt) /\ UNCHANGED <<qattr, qhist>>)
 
 TraceSpec == TraceInit /\ [][TraceNext]_tvars
 
